@@ -587,6 +587,10 @@ def report_term(r, injs):
         r.t_pre, r.t_post, r.cfg, r.obs, r.prog, r.ops, js)
 
 
+def pre_term(r):
+    return "let T := %s in let C := %s in pre_check C T" % (r.t_pre, r.cfg)
+
+
 def known_term(r, idxs):
     return "let T := %s in let C := %s in let O := %s in known_obs %s C T O [%s]" % (
         r.t_pre, r.cfg, r.obs, r.prog, "; ".join("%d%%nat" % i for i in idxs))
